@@ -49,7 +49,11 @@ def gen_option(r):
     if kind == "string":
         num = r.choice(STRING_OPTS)
         n = r.choice([0, 1, 5, 12, 13, 14, 40, 255, 268, 269, 270, 300]) if r.chance(0.5) else r.randint(0, 20)
-        s = "".join(r.choice("abcXYZ09-_.~é√/ ?&=") for _ in range(n))
+        # includes text that is NOT in Unicode normal form C (combining accent, Ohm sign, CJK compatibility
+        # ideograph): RFC 7252 section 5.10.1 forbids normalising, the bytes must survive as they are
+        s = "".join(r.choice(["a", "b", "c", "X", "Y", "Z", "0", "9", "-", "_", ".", "~", "\u00e9", "\u221a", "/", " ", "?",
+                              "&", "=", "e\u0301", "\u2126", "\uf900", "\u1100\u1161"]) for _ in range(n))
+        s = s[:n] if len(s.encode("utf8")) > 300 else s
         val = s.encode("utf8")
     elif kind == "uint":
         num = r.choice(UINT_OPTS)
